@@ -601,3 +601,20 @@ def expand_facts():
     if len(o2) != 1 or o2[0] is not p:
         raise Unsupported("iter_timestamped_records does not yield a record without datetime fields as it is")
     return copied
+
+
+def writes_independent_of_output(modes):
+    """the sequence of writes is the same whatever -m / -w / -f / --split / --suffix-length say"""
+    K = 6
+    base = None
+    variants = [[]] + [["-m", m] for m in modes] + [["-w", "x.records"], ["-w", "jsonfile://x.json"], ["-f", "{a}"],
+                                                    ["-w", "x.records", "--split", "2", "--suffix-length", "3"]]
+    for extra in variants:
+        lg = []
+        r = run_main([PROBE_SRC, "--skip", "1", "--count", "4", "--record-source", "S", "-X", "zz"] + extra,
+                     records=[PRec(i, lg) for i in range(K)])
+        ev = [e for e in r["log"] if e[0] in ("yield", "rewrite", "write")] + [e for e in lg if e[0] == "set"]
+        if base is None:
+            base = ev
+        elif ev != base:
+            raise Unsupported("the writes of rdump depend on %s: %r instead of %r" % (" ".join(extra), ev[:4], base[:4]))
